@@ -1125,6 +1125,51 @@ fn op_register(a: u8, kind: ActionKind, dst: u8) {
     *c.cvars[dst as usize].borrow_mut() = Some(cleanable);
 }
 
+/// Finalizer script: registers a (no-op) cleaning action on the Cleaner of the live object in cell 0 and keeps the
+/// Cleanable in the highest free cleanable variable. When the finalizer was started by the automatic collection of a
+/// `Cc::new` that `Cleaner::register` itself issues (the lazily created action map), this is a registration nested
+/// inside a registration on the same Cleaner.
+#[cfg(feature = "cleaners")]
+fn script_register_on_cell0(node: &Node) {
+    let c = ctx();
+    let id = node.id as usize;
+    let (t, dst, aid) = {
+        let m = c.model.borrow();
+        let Some(t) = m.objs[id].cells[0] else { return };
+        if t as usize == id || !m.objs[t as usize].value_alive() || m.objs[t as usize].moved_out {
+            return;
+        }
+        if m.actions.len() >= c.cfg.max_actions.max(1) + 1 {
+            return;
+        }
+        let Some(dst) = (0..c.cfg.nc).rev().find(|j| m.cvars[*j].is_none() && c.cvars[*j].try_borrow().map_or(false, |x| x.is_none())) else { return };
+        if dst == 0 {
+            return; // the lowest variable is the one a top-level Register in progress is about to fill
+        }
+        (t, dst, m.actions.len() as u8)
+    };
+    c.model.borrow_mut().actions.push(MAction { owner: t, kind: ActionKind::Nop as u8, captured: None, captured_weak: None, runs: 0, pending: true, cvar: Some(dst as u8), cleaned: false });
+    let env = ActionEnv { aid, kind: ActionKind::Nop, captured: None, captured_weak: None, weak_target: None };
+    let cleanable = {
+        let _f = FrameGuard::new(Frame::Api { collect_like: true, collecting: false });
+        let cell = node.cells[0].try_borrow();
+        match cell.as_ref().ok().and_then(|x| x.as_ref()) {
+            Some(cc) => Some(cc.cleaner.register(move || cb_action(env))),
+            None => None,
+        }
+    };
+    drain_alloc();
+    let Some(cleanable) = cleanable else { return };
+    {
+        let mut m = c.model.borrow_mut();
+        if m.objs[t as usize].map_addr == 0 {
+            m.objs[t as usize].map_addr = last_tagged_box();
+        }
+        m.cvars[dst] = Some(aid);
+    }
+    *c.cvars[dst].borrow_mut() = Some(cleanable);
+}
+
 // ------------------------------------------------------------------------------------------------
 // Predicted buffer membership (exact for programs whose finalizers do not manipulate pointers)
 // ------------------------------------------------------------------------------------------------
